@@ -88,16 +88,22 @@ def _gen(rng, big=False):
                 fired['resample_inserted'] = fired.get('resample_inserted', 0) + 1
         sig2[v] = out
     text = common.dense_text(ast, sg.Spelling(rng))
+    again = None
+    if rng.random() < 0.3:
+        # a second requirement monitored in the same process by another object, between two uses of the first
+        again = sg.gen_formula(rng, sg.GenCfg(vars=vars_, ops=common.DENSE_OFFLINE_OPS, max_depth=rng.randint(1, 3), max_bound=4))
     order = list(vars_)
     rng.shuffle(order)
     return {'vars': vars_, 'ast': ast, 'text': text, 'signals': signals, 'signals2': sig2, 'fired': fired,
-            'cls': 'ct_off' if rng.random() < 0.7 else 'ct', 'order': order}
+            'cls': 'ct_off' if rng.random() < 0.7 else 'ct', 'order': order, 'again': again}
 
 
-def _check(r, sc, text, signals, ref, s0, e0, tag):
+def _check(r, sc, text, signals, ref, s0, e0, tag, keep=None):
     desc = {'cls': sc.get('cls', 'ct_off'), 'vars': common.var_decls(sc['vars']), 'spec': text}
     try:
-        spec = M.build(desc)
+        spec = keep[0] if keep else M.build(desc)
+        if keep is not None and not keep:
+            keep.append(spec)
         out = M.ct_evaluate(spec, signals, sc.get('order'))
         r.api_calls += 3
     except M.ApiCrash as e:
@@ -134,9 +140,22 @@ def run(sc):
     text = sc.get('text') or common.dense_text(ast)
     s0 = max(signals[v][0][0] for v in used)
     e0 = min(signals[v][-1][0] for v in used)
-    out = _check(r, sc, text, signals, ref, s0, e0, 'recorded')
+    first = []
+    out = _check(r, sc, text, signals, ref, s0, e0, 'recorded', keep=first)
     if sc.get('signals2') and out is not None:
         out2 = _check(r, sc, text, sc['signals2'], ref, s0, min(sc['signals2'][v][-1][0] for v in used), 'resampled')
+    if sc.get('again') and first and not r.violations and sg.vars_of(sc['again']):
+        # the first monitor object is still alive and is asked again after another requirement's object has run
+        usedb = sg.vars_of(sc['again'])
+        sb, eb = max(signals[v][0][0] for v in usedb), min(signals[v][-1][0] for v in usedb)
+        try:
+            refb = D.eval_dense(sc['again'], dict((v, signals[v]) for v in usedb)) if eb >= sb else None
+        except RefError:
+            refb = None
+        if refb is not None and not common.bounded_op_nonzero_start(sc['again'], signals):
+            r.faults['first_object_asked_again_after_another'] += 1
+            _check(r, sc, common.dense_text(sc['again']), signals, refb, sb, eb, 'second-requirement')
+            _check(r, sc, text, signals, ref, s0, e0, 'recorded-again', keep=first)
     r.sim_time += max(0.0, e0 - s0)
     fin = [v for _, v in ref if v not in (float('inf'), -float('inf'))]
     # Allen profile of the sensors
@@ -169,6 +188,10 @@ def run(sc):
 
 def shrinks(sc):
     def extra(s):
+        if s.get('again'):
+            c = copy.deepcopy(s)
+            c['again'] = None
+            yield c
         if s.get('signals2'):
             c = copy.deepcopy(s)
             c['signals2'] = None
